@@ -22,8 +22,12 @@ Tol(ev) == IF ev.double THEN TolDouble ELSE TolSingle
 (* amp_ppb   : max | |F(out)| - A | / max A            (mixed state: |F(out)| is the incoherent sum over the states)   *)
 (* phase_ppb : max |F(out)/|F(out)| - F(in)/|F(in)||  over the pixels where both A and |F(in)| exceed 1e-3 of their max *)
 (* idem_ppb  : max |Proj(Proj(in)) - Proj(in)| / max |Proj(in)|                                                         *)
+(* finite    : every value of Proj(in) and of Proj(Proj(in)) is a finite number.  For an exit wave that vanishes identically there is   *)
+(*             no phase to keep (and, for several incoherent states, no way to share the amplitude): the harness then logs amp_ppb =  *)
+(*             phase_ppb = 0 and only finiteness and idempotence are judged                                                          *)
 ProjFails(ev) ==
   IF ev.raised THEN {"raised"}
+  ELSE IF ~ev.finite THEN {"projection_returns_finite_values"}
   ELSE (IF ev.amp_ppb <= Tol(ev) THEN {} ELSE {"fourier_amplitude_equals_measured"})
   \cup (IF ev.phase_ppb <= Tol(ev) THEN {} ELSE {"fourier_phase_kept"})
   \cup (IF ev.idem_ppb <= Tol(ev) THEN {} ELSE {"projection_idempotent"})
